@@ -540,6 +540,7 @@ func c11TCP(c *h.Ctx) error {
 	if err := c11BigRefusals(c); err != nil {
 		return err
 	}
+	c11ReconnectAfterCut(c)
 	for s := 0; s < sessions; s++ {
 		ln, err := net.Listen("tcp", "127.0.0.1:0")
 		if err != nil {
@@ -662,4 +663,55 @@ func c11TCP(c *h.Ctx) error {
 	c.Exec(events)
 	c.Set("events", events)
 	return nil
+}
+
+// streamConn: a net.Conn whose peer sent `data` and then closed.
+type streamConn struct {
+	captureConn
+	r *bytes.Reader
+}
+
+func (s *streamConn) Read(p []byte) (int, error) { return s.r.Read(p) }
+
+// c11ReconnectAfterCut: one NBTTransport object outlives its connection. The first stream ends inside a frame (every cut
+// offset of a short frame: in the header, in the body); Receive reports an error. The object is then given a new connection
+// (as Connect does after a Close) that carries two whole frames: they are received intact -- nothing of the cut frame
+// survives in the object.
+func c11ReconnectAfterCut(c *h.Ctx) {
+	frame := func(p []byte) []byte {
+		return append([]byte{0, 0, byte(len(p) >> 8), byte(len(p))}, p...)
+	}
+	first := frame([]byte("AAAAAAAAAA"))
+	m1, m2 := []byte("hello"), []byte("world!!")
+	second := append(frame(m1), frame(m2)...)
+	for cut := 1; cut < len(first); cut++ {
+		c.Case(fmt.Sprintf("reconnect-after-cut:%d", cut))
+		smp := map[string]interface{}{"first_stream_hex": h.Hex(first[:cut]), "second_stream_hex": h.Hex(second)}
+		t := nbt.NewNBTTransport()
+		t.VerifSetConn(&streamConn{r: bytes.NewReader(first[:cut])})
+		var got []byte
+		var err error
+		if p := h.Guard(func() { got, err = t.Receive() }); p != "" {
+			c.Fail("nbt.NBTTransport.Receive", "panic", p, smp)
+			continue
+		}
+		c.Exec(1)
+		if err == nil {
+			c.Fail("nbt.NBTTransport.Receive", "partial-frame", fmt.Sprintf("stream cut after %d of %d bytes of a frame: Receive returned %q without error", cut, len(first), got), smp)
+			continue
+		}
+		t.Close()
+		t.VerifSetConn(&streamConn{r: bytes.NewReader(second)})
+		for i, want := range [][]byte{m1, m2} {
+			if p := h.Guard(func() { got, err = t.Receive() }); p != "" {
+				c.Fail("nbt.NBTTransport.Receive", "panic", p, smp)
+				break
+			}
+			c.Exec(1)
+			if err != nil || !bytes.Equal(got, want) {
+				c.Fail("nbt.NBTTransport.Receive", "fabricated-frame:after-reconnect", fmt.Sprintf("the previous connection of this object ended %d bytes into a frame; on the new connection message #%d is %q (%v), sent was %q", cut, i+1, got, err, want), smp)
+				break
+			}
+		}
+	}
 }
